@@ -235,7 +235,7 @@ where
         x[col] -= h;
         let below = f(x.as_slice());
         x[col] += h;
-        let jac_col = (above + below) * denom;
+        let jac_col = (above - below) * denom;
         for row in 0..mat.column(0).len() {
             mat[(row, col)] = jac_col[row];
         }
@@ -304,6 +304,9 @@ where
 
     let mut shift = -jac_inv * func_eval;
     guess += &shift;
+    if shift.norm().abs() <= tol {
+        return Ok(guess);
+    }
 
     while n < n_max {
         let func_eval_last = func_eval;
